@@ -143,6 +143,25 @@ def replay(rec):
     if rec.get('what_kind') == 'odimo':
         ok, msg = _odimo_concrete()
         return not ok, msg
+    if rec.get('what_kind') == 'pit_repeat':
+        spec, wseed, m_ = rec['spec'], rec.get('wseed', 0), rec['metric']
+        pit, model, shape = pitlib.make_pit(spec, wseed, cost=_pit_specs(spec['fam']))
+        first = {k: float(pit.get_cost(k)) for k in _pit_specs(spec['fam'])}
+        second = {k: float(pit.get_cost(k)) for k in _pit_specs(spec['fam'])}
+        return first[m_] != second[m_], f'{m_}: first reading {first[m_]}, second reading {second[m_]}'
+    if rec.get('what_kind') == 'mps_channel0':
+        import math
+        m, qs = _mk_mps(rec['cost'], True)
+        byname = dict(qs)
+        with torch.no_grad():
+            for n, vals in rec['alphas'].items():
+                byname[n].alpha.copy_(torch.tensor([float(Fraction(v)) for v in vals]).reshape(byname[n].alpha.shape))
+        for _, q in qs:
+            q.sample_alpha()
+        c = m.get_cost()
+        gs = torch.autograd.grad(c, [q.alpha for _, q in qs], allow_unused=True)
+        bad = (not math.isfinite(float(c))) or any(g is not None and not bool(torch.isfinite(g).all()) for g in gs)
+        return bad, f'cost {float(c)}, gradients {[None if g is None else g.reshape(-1).tolist() for g in gs]}'
     return False, 'replay not implemented for this observable'
 
 
@@ -221,7 +240,8 @@ def _run_pit(res, p, selftest):
                 r, m = ex.must(bad_rep) if bad_rep is not True else ('sat', None)
                 res.oblige(r == 'unsat')
                 if r == 'sat':
-                    res.violations.append({'key': f'{label}|not_repeatable', 'what': f'{label}: the cost read a second time on the same model differs ({str(c)[:80]} vs {str(c_again)[:80]})'})
+                    _viol(res, dict(base, what_kind='pit_repeat', observable='not_repeatable', key=f'{label}|not_repeatable'),
+                          f'{label}: the cost read a second time on the same model differs ({str(c)[:80]} vs {str(c_again)[:80]})', selftest)
             else:
                 res.oblige(True)
 
@@ -525,15 +545,14 @@ class _MNet(nn.Module):
         return self.fc(torch.relu(self.c0(x)).flatten(1))
 
 
-def _run_mps(res, p, selftest):
+def _mk_mps(cost_name, ch0):
     import importlib
     from plinio.methods import MPS
     from plinio.methods.mps import get_default_qinfo, MPSType
     from plinio.methods.mps.nn.qtz import MPSBaseQtz
-    cost = getattr(importlib.import_module('plinio.cost.' + p['cost']), p['cost'])
+    cost = getattr(importlib.import_module('plinio.cost.' + cost_name), cost_name)
     torch.manual_seed(0)
-    a_prec = (8,) if p['cost'] == 'ne16_latency' else (4, 8)
-    ch0 = bool(p.get('channel0'))
+    a_prec = (8,) if cost_name == 'ne16_latency' else (4, 8)
     if ch0:
         m = MPS(_MNet(), input_shape=(1, 2, 2), qinfo=get_default_qinfo((0, 2, 8), (8,)), w_search_type=MPSType.PER_CHANNEL, cost=cost, hard_softmax=True)
     else:
@@ -542,6 +561,18 @@ def _run_mps(res, p, selftest):
     qs = [(n, q) for n, q in m.named_modules() if isinstance(q, MPSBaseQtz) and 'alpha' in q._parameters and q.alpha.numel() > 1 and (not ch0 or 'c0.w_mps_quantizer' in n)]
     seen = set()
     qs = [(n, q) for n, q in qs if not (id(q) in seen or seen.add(id(q)))]
+    return m, qs
+
+
+def _run_mps(res, p, selftest):
+    import importlib
+    from plinio.methods import MPS
+    from plinio.methods.mps import get_default_qinfo, MPSType
+    from plinio.methods.mps.nn.qtz import MPSBaseQtz
+    cost = getattr(importlib.import_module('plinio.cost.' + p['cost']), p['cost'])
+    torch.manual_seed(0)
+    ch0 = bool(p.get('channel0'))
+    m, qs = _mk_mps(p['cost'], ch0)
 
     def fn(ex):
         pairs, sy = [], {}
@@ -588,7 +619,13 @@ def _run_mps(res, p, selftest):
             r, _ = ex.must(g)
             res.oblige(r == 'unsat')
             if r == 'sat':
-                res.violations.append({'key': f'MPS|{p["cost"]}|nonfinite' + ('|per_channel+0bit' if ch0 else ''), 'what': f'division by zero reachable in the cost: {str(g)[:300]}'})
+                if ch0:
+                    r_, mm_ = ex.must(g)
+                    alphas_ = {n: [st.model_value(mm_, v) for v in a.elems()] for n, a in sy.items()}
+                    _viol(res, {'what_kind': 'mps_channel0', 'cost': p['cost'], 'alphas': alphas_, 'observable': 'nonfinite', 'key': f'MPS|{p["cost"]}|nonfinite|per_channel+0bit'},
+                          f'MPS per-channel 0-bit, hard sampling: the {p["cost"]} cost or its gradient is not finite at coefficients {jsonable(alphas_)}', selftest)
+                else:
+                    res.violations.append({'key': f'MPS|{p["cost"]}|nonfinite', 'what': f'division by zero reachable in the cost: {str(g)[:300]}'})
         r, _ = ex.must(st.e_lt(c, 0))
         res.oblige(r == 'unsat')
         if r == 'sat':
